@@ -170,6 +170,9 @@ class System:
 
     def check(self, st, ret, got):
         name = st["act"]["name"]
+        if not self.tf.param.objects("existing")["time_type"].constant:
+            # (a C14 fact observed here: Time lifts the constant flag of its own time_type to switch the type)
+            return ("time_type_unlocked", "after Time.__call__(val, time_type=...) the constant parameter time_type of the Time object is left assignable")
         if got["time"] != st["time"]:
             return ("time", "after %s the time is %r, spec expects %r" % (name, got["time"], st["time"]))
         if len(self.tf._pushed_state) != st["depth"] and hasattr(self.tf, "_pushed_state"):
